@@ -262,4 +262,186 @@ def handleC14 (toks : List String) : String :=
     | _, _ => err "format"
   | _ => err "op"
 
-def main : IO Unit := runDriver handleC14
+/-! ### stateful part: one FreeSurface / StackingFault object (`sf ...` requests) -/
+
+abbrev ObjSt := Option (SFStatic Rat × SFState Rat)
+
+def optRat? (s : String) : Option (Option Rat) :=
+  if s = "-" then some none else (parseRat? s).map some
+
+def take3? (l : List String) : Option (V3 Rat × List String) :=
+  match l with
+  | a :: b :: c :: t => match parseRats? [a, b, c] with
+    | some [x, y, z] => some (⟨x, y, z⟩, t)
+    | _ => none
+  | _ => none
+
+/-- `k` | `v x y z` | `r x y z` | `i n` | `b` -/
+def shiftArg? : List String → Option (ShiftArg Rat × List String)
+  | "k" :: t => some (.keep, t)
+  | "b" :: t => some (.both, t)
+  | "v" :: t => (take3? t).map fun (v, t) => (.vec v, t)
+  | "r" :: t => (take3? t).map fun (v, t) => (.rel v, t)
+  | "i" :: n :: t => n.toInt?.map fun n => (.idx n, t)
+  | _ => none
+
+/-- `n` | `r x` | `c x` | `b` -/
+def fposArg? : List String → Option (FaultPosArg Rat × List String)
+  | "n" :: t => some (.none, t)
+  | "b" :: t => some (.both, t)
+  | "r" :: x :: t => (parseRat? x).map fun x => (.rel x, t)
+  | "c" :: x :: t => (parseRat? x).map fun x => (.cart x, t)
+  | _ => none
+
+/-- `i m` | `p lo hi` -/
+def multArg? : List String → Option (MultArg × List String)
+  | "i" :: m :: t => m.toInt?.map fun m => (.int m, t)
+  | "p" :: lo :: hi :: t => match lo.toInt?, hi.toInt? with
+    | some lo, some hi => some (.pair lo hi, t)
+    | _, _ => none
+  | _ => none
+
+/-- `-` | `x y z` -/
+def optV3? : List String → Option (Option (V3 Rat) × List String)
+  | "-" :: t => some (none, t)
+  | l => (take3? l).map fun (v, t) => (some v, t)
+
+/-- `n` | `b` | `d x y z` | `c a1 a2 oop` (each `-` or a rational) -/
+def fshiftArg? : List String → Option (FShiftArg Rat × List String)
+  | "n" :: t => some (.none, t)
+  | "b" :: t => some (.both, t)
+  | "d" :: t => (take3? t).map fun (v, t) => (.direct v, t)
+  | "c" :: a :: b :: c :: t => match optRat? a, optRat? b, optRat? c with
+    | some a, some b, some c => some (.coeffs a b c, t)
+    | _, _, _ => none
+  | _ => none
+
+def surfArgs? (toks : List String) : Option (SurfArgs Rat) := do
+  let (sh, t) ← shiftArg? toks
+  let (m0, t) ← multArg? t
+  let (m1, t) ← multArg? t
+  let (m2, t) ← multArg? t
+  match t with
+  | q :: e :: v :: t =>
+    let q ← optInt? q
+    let e ← parseBool? e
+    let v ← optRat? v
+    let (fp, t) ← fposArg? t
+    if t.isEmpty then some ⟨sh, m0, m1, m2, q, e, v, fp⟩ else none
+  | _ => none
+
+def showPos (ps : List (V3 Rat)) : String := showRats (ps.flatMap V3.toList)
+def showOptRat : Option Rat → String
+  | some x => showRat x
+  | none => "-"
+
+def replyUnit : Except String Unit → String
+  | .ok _ => "ok"
+  | .error e => err e
+
+def showState (o : SFState Rat) : String :=
+  let sys := match o.system with
+    | some s => showRats (s.box.vects.toList ++ s.box.origin.toList) ++ " " ++
+        " ".intercalate (s.pbc.toList.map showBool) ++ " " ++ showRat s.area2 ++ " " ++ toString s.atoms.length
+    | none => "-"
+  let ab := match o.above with
+    | some m => if m.isEmpty then "e" else " ".intercalate (m.map showBool)
+    | none => "-"
+  showV o.shift ++ " ; " ++ showOptRat o.fpRel ++ " ; " ++ showOptRat o.fpCart ++ " ; " ++ ab ++ " ; " ++
+    showV o.a1c ++ " " ++ showV o.a2c ++ " ; " ++ sys
+
+def handleSF (s : ObjSt) (toks : List String) : ObjSt × String :=
+  match toks with
+  | "new" :: cut :: rest =>
+    match Cut.ofString? cut, shiftArg? rest with
+    | some c, some (sh, atol :: nsh :: t) =>
+      match parseRat? atol, nsh.toNat? with
+      | some atol, some n =>
+        match parseRats? (t.take (3 * n)), parseInts? ((t.drop (3 * n)).take 9), parseRats? (t.drop (3 * n + 9)) with
+        | some shs, some li, some xs =>
+          match m3i? li, M3.ofList? (xs.take 9), M3.ofList? ((xs.drop 9).take 9), v3? ((xs.drop 18).take 3) with
+          | some L, some mcart, some rv, some ro =>
+            if M3.det rv = 0 then (s, err "value") else
+            let atoms : List (C04.Atom Rat) := (chunk3 (xs.drop 21)).map (fun p => ⟨0, p, []⟩)
+            let st : SFStatic Rat := ⟨c, ⟨rv, ro⟩, atoms, chunk3 shs, mcart, L, fun x => x.floor, atol⟩
+            match sfNew st sh with
+            | .ok o => (some (st, o), "ok")
+            | .error e => (s, err e)
+          | _, _, _, _ => (s, err "format")
+        | _, _, _ => (s, err "format")
+      | _, _ => (s, err "format")
+    | _, _ => (s, err "format")
+  | op :: rest =>
+    match s with
+    | none => (s, err "assert")
+    | some (st, o) =>
+      let upd := fun (r : SFState Rat × String) => (some (st, r.1), r.2)
+      match op with
+      | "state" => (s, showState o)
+      | "pos" =>
+        match o.system with
+        | some sy => (s, showPos (sy.atoms.map (·.pos)))
+        | none => (s, err "attr")
+      | "shift" =>
+        match shiftArg? rest with
+        | some (a, []) => let r := setShiftOp st o a; upd (r.1, replyUnit r.2)
+        | _ => (s, err "format")
+      | "surface" =>
+        match surfArgs? rest with
+        | some a => let r := surfaceSF st o a; upd (r.1, replyUnit r.2)
+        | none => (s, err "format")
+      | "fsurface" =>
+        match surfArgs? rest with
+        | some a => let r := surfaceBase st o a; upd (r.1, replyUnit r.2)
+        | none => (s, err "format")
+      | "fprel" =>
+        match parseRats? rest with
+        | some [x] => let r := setFpRel st o x; upd (r.1, replyUnit r.2)
+        | _ => (s, err "format")
+      | "fpcart" =>
+        match parseRats? rest with
+        | some [x] => let r := setFpCart st o x; upd (r.1, replyUnit r.2)
+        | _ => (s, err "format")
+      | "fault" =>
+        match optV3? rest with
+        | some (a1v, t) =>
+          match optV3? t with
+          | some (a2v, t) =>
+            match fposArg? t with
+            | some (fp, t) =>
+              match fshiftArg? t with
+              | some (fs, []) =>
+                let r := faultOp st o ⟨a1v, a2v, fp, fs⟩
+                upd (r.1, match r.2 with
+                  | .ok ps => "ok " ++ showPos ps
+                  | .error e => err e)
+              | _ => (s, err "format")
+            | none => (s, err "format")
+          | none => (s, err "format")
+        | none => (s, err "format")
+      | "map" =>
+        match optV3? rest with
+        | some (a1v, t) =>
+          match optV3? t with
+          | some (a2v, t) =>
+            match fposArg? t with
+            | some (fp, [n1, n2, oop]) =>
+              match n1.toNat?, n2.toNat?, optRat? oop with
+              | some n1, some n2, some oop =>
+                let r := iterFaultMap st o a1v a2v fp n1 n2 oop
+                upd (r.1, match r.2 with
+                  | .ok l => "ok " ++ " | ".intercalate (l.map fun e => showRats [e.1, e.2.1] ++ " ; " ++ showPos e.2.2)
+                  | .error e => err e)
+              | _, _, _ => (s, err "format")
+            | _ => (s, err "format")
+          | none => (s, err "format")
+        | none => (s, err "format")
+      | _ => (s, err "op")
+  | [] => (s, err "op")
+
+def stepC14 (s : ObjSt) (toks : List String) : ObjSt × String :=
+  match toks with
+  | "sf" :: rest => handleSF s rest
+  | _ => (s, handleC14 toks)
+
+def main : IO Unit := runDriverS stepC14 none
